@@ -57,6 +57,11 @@ func (b *Base) Description() string {
 	return b.Desc
 }
 
+// dirUses gives access to the directive uses so an extension can be undone.
+func (b *Base) dirUses() *[]*DirectiveUse {
+	return &b.Dirs
+}
+
 // Directives returns the directive associated with the type.
 func (b *Base) Directives() []*DirectiveUse {
 	return b.Dirs
